@@ -713,3 +713,5 @@ PROPS["C19"]["rule"] += " The concurrent (race-build) run also looks at what its
 PROPS["C13"]["rule"] += " OS part: what the addresser returns is compared with the kernel's listing as a multiset (nothing obliges it to keep the kernel's order)."
 
 PROPS["C10"]["rule"] += " After a recoverable fault the re-dialled connection must be used (an advertiser sends its initial RA on it, unless the stop came first); a fatal fault of the 'other' kind must be named by the error Run returns."
+
+PROPS["C04"]["rule"] += " The own RA handed to the inconsistency hook must be the one of that instant (forwarding as it is when the other router's RA is handled), not merely one of the two possible RAs."
